@@ -103,6 +103,27 @@ lbc_width = re.sub(r"\s+", "", mm.group(1)) == "compptr->width_in_blocks-1"
 if not re.search(r"block_num\s*<\s*last_block_column", sm) or not re.search(r"block_num\s*\+\s*1\s*<\s*last_block_column", sm):
     die("jdcoefct.c: the right-neighbour tests against last_block_column changed")
 
+# TurboJPEG destination row pointers (turbojpeg-mp.c tj3Decompress*)
+tm = rd("turbojpeg-mp.c")
+if "this->bottomUp" not in tm or "croppedHeight" not in tm:
+    die("turbojpeg-mp.c: tj3Decompress no longer has bottomUp / croppedHeight")
+anchor_ok = bool(re.search(r"if\s*\(this->bottomUp\)\s*row_pointer\[i\]\s*=\s*&dstBuf\[\(croppedHeight\s*-\s*i\s*-\s*1\)\s*\*\s*\(size_t\)pitch\];"
+                           r"\s*else\s*row_pointer\[i\]\s*=\s*&dstBuf\[i\s*\*\s*\(size_t\)pitch\];", tm))
+
+# the crop window is initialised once per image (master_selection), never at the start of an output pass
+def body_of(src, name):
+    mm = re.search(r"\n" + name + r"\(j_decompress_ptr cinfo\)\s*\{", src)
+    if not mm:
+        die("jdmaster.c: %s not found" % name)
+    k, depth = mm.end(), 1
+    while depth and k < len(src):
+        depth += {"{": 1, "}": -1}.get(src[k], 0)
+        k += 1
+    return src[mm.end():k]
+ms_body = body_of(jm, "master_selection")
+pp_body = body_of(jm, "prepare_for_output_pass")
+window_once = ("first_iMCU_col = 0" in re.sub(r"\s+", " ", ms_body)) and not re.search(r"first_iMCU_col|first_MCU_col|last_MCU_col|last_iMCU_col", pp_body)
+
 def zl(xs):
     return "[" + "; ".join(str(x) for x in xs) + "]"
 print("(* GENERATED by tools/gen_Scaling.py from src/turbojpeg.c, turbojpeg.h, jpeglib.h, jdmaster.c, jdapistd.c -- do not edit *)")
@@ -117,6 +138,10 @@ print("(* jpeg_crop_scanline: `if (master->using_merged_upsample) reinit_upsampl
 print("Definition gen_crop_merged_guard : bool := %s." % ("true" if guard else "false"))
 print("(* jdcoefct.c decompress_smooth_data: last_block_column = compptr->width_in_blocks - 1 (independent of the crop window) *)")
 print("Definition gen_smooth_lbc_is_width : bool := %s." % ("true" if lbc_width else "false"))
+print("(* turbojpeg-mp.c tj3Decompress*: bottom-up rows are anchored at croppedHeight - i - 1, top-down rows at i *)")
+print("Definition gen_tj_bottomup_anchor_cropped : bool := %s." % ("true" if anchor_ok else "false"))
+print("(* jdmaster.c: first/last_iMCU_col are initialised in master_selection() and no (i)MCU column window is touched in prepare_for_output_pass() *)")
+print("Definition gen_crop_window_set_once : bool := %s." % ("true" if window_once else "false"))
 print("(* jdmaster.c chain: (threshold k of `scale_num*DCTSIZE <= scale_denom*k` (0 = final else), width multiplier, height multiplier,")
 print("   _min_DCT_h_scaled_size, _min_DCT_v_scaled_size) in source order *)")
 print("Definition gen_scale_chain : list (Z * Z * Z * Z * Z) :=\n  [%s]." % "; ".join("(%d, %d, %d, %d, %d)" % b for b in branches))
